@@ -1269,6 +1269,14 @@ def r_dtype_cross_param(ctx, f: FunctionInfo, params=None, rule="R-DTYPE", chain
 _CACHE_DECORATORS = {"lru_cache", "cache", "cached_property", "memoize", "memoized"}
 
 
+def local_names_of(f):
+    from .model import local_names
+    try:
+        return set(local_names(f.node)) | {p.name for p in f.params}
+    except Exception:  # noqa: BLE001
+        return {p.name for p in f.params}
+
+
 def r_fresh_result(ctx, f: FunctionInfo, rule="R-EFFECT", chain=None):
     """A function that returns a mutable array / list hands out a fresh object on every call: it is not memoised (a
     functools cache returns the SAME ndarray to every caller, so one caller's in-place normalisation corrupts every
@@ -1281,6 +1289,24 @@ def r_fresh_result(ctx, f: FunctionInfo, rule="R-EFFECT", chain=None):
             bad = d
     ann = unparse(f.node.returns) if getattr(f.node, "returns", None) is not None else ""
     mutable = any(k in ann for k in ("ndarray", "list", "dict", "matrix", "csr", "dia_")) or ann == ""
+    # a hand-written memo: the function stores into a module-level container (dict / list / set) -- state that survives the call
+    mod = f.module
+    if bad is None and mod is not None and f.parent is None:
+        glob = {t.id for st in getattr(mod, "tree", ast.Module(body=[], type_ignores=[])).body if isinstance(st, (ast.Assign, ast.AnnAssign))
+                for t in (st.targets if isinstance(st, ast.Assign) else [st.target]) if isinstance(t, ast.Name)
+                and isinstance(st.value, (ast.Dict, ast.List, ast.Set, ast.Call)) and not (isinstance(st.value, ast.Call) and getattr(st.value.func, "id", "") in ("frozenset", "tuple", "TypeVar"))}
+        loc = local_names_of(f)
+        for x in walk_no_nested(f.node):
+            tgt = None
+            if isinstance(x, ast.Subscript) and isinstance(x.ctx, (ast.Store, ast.Del)) and isinstance(x.value, ast.Name):
+                tgt = x.value.id
+            elif isinstance(x, ast.Call) and isinstance(x.func, ast.Attribute) and isinstance(x.func.value, ast.Name) and x.func.attr in ("append", "update", "setdefault", "add", "pop", "clear", "extend", "insert", "popitem"):
+                tgt = x.func.value.id
+            if tgt is not None and tgt in glob and tgt not in loc:
+                ctx.ob(rule, f, "every call returns a fresh array (no memoisation of mutable results)", False,
+                       f"`{unparse(x)[:60]}` (line {x.lineno}) stores into the module-level `{tgt}`: results are remembered between calls (keyed by object identity or by value), so a "
+                       "caller that re-uses a buffer whose CONTENTS changed gets the answer for the old contents", x, chain=chain)
+                return
     if bad is not None and mutable:
         ctx.ob(rule, f, "every call returns a fresh array (no memoisation of mutable results)", False,
                f"`@{unparse(bad)}` memoises a function returning `{ann or 'an unannotated value'}`: all callers with equal arguments share one mutable object, "
@@ -1512,6 +1538,19 @@ def r_domain_clamped(ctx, f: FunctionInfo, rule="R-GUARD", chain=None):
     def computed(e):
         return any(isinstance(x, ast.Call) and not (isinstance(x.func, ast.Attribute) and x.func.attr in ("sqrt", "round", "real", "float", "array")) for x in ast.walk(e))
 
+    # names holding computed eigenvalues of a Hermitian / PSD matrix: `w, v = eig(h)(X)`, `w = eigvalsh(X)`.  The zero eigenvalues of a
+    # rank-deficient PSD matrix come out as -1e-17: their real square root is nan
+    eig_names = set()
+    for n in walk_no_nested(f.node):
+        if isinstance(n, ast.Assign) and len(n.targets) == 1 and isinstance(n.value, ast.Call):
+            k_ = model.resolve_call(f, n.value).key or ""
+            if k_ in ("numpy.linalg.eig", "numpy.linalg.eigh", "scipy.linalg.eig", "scipy.linalg.eigh") and isinstance(n.targets[0], ast.Tuple) and n.targets[0].elts \
+                    and isinstance(n.targets[0].elts[0], ast.Name):
+                eig_names.add(n.targets[0].elts[0].id)
+            if k_ in ("numpy.linalg.eigvalsh", "scipy.linalg.eigvalsh") and isinstance(n.targets[0], ast.Name):
+                eig_names.add(n.targets[0].id)
+    eig_bad = []
+
     sites, bad = 0, []
     for c in walk_no_nested(f.node):
         if not (isinstance(c, ast.Call) and c.args):
@@ -1521,6 +1560,12 @@ def r_domain_clamped(ctx, f: FunctionInfo, rule="R-GUARD", chain=None):
             continue
         parts = expand(c.args[0])
         prone = False
+        if k.endswith("sqrt") and isinstance(c.args[0], ast.Name) and c.args[0].id in eig_names:
+            # np.sqrt applied directly to the eigenvalue vector (an element-wise clamp, abs or a complex cast would appear in the argument)
+            sites += 1
+            eig_bad.append(c)
+            bad.append(c)
+            continue
         if k.endswith("sqrt"):
             for p_ in parts:
                 for x in ast.walk(p_):
@@ -1543,6 +1588,8 @@ def r_domain_clamped(ctx, f: FunctionInfo, rule="R-GUARD", chain=None):
     if sites:
         ctx.ob(rule, f, "boundary-prone sqrt / arccos arguments are clamped to their domain", not bad,
                f"{sites} site(s), each behind clip / max / abs" if not bad else
+               (f"`{unparse(eig_bad[0])[:80]}` (line {eig_bad[0].lineno}): real square root of computed eigenvalues -- the zero eigenvalues of a rank-deficient positive semidefinite "
+                "matrix come out as about -1e-17, and np.sqrt of those is nan (scipy.linalg.sqrtm / a clamp / a complex cast does not have this edge)") if eig_bad else
                f"`{unparse(bad[0])[:80]}`: the argument is a difference (or a computed quantity) that reaches the edge of the domain exactly for identical / pure inputs; "
                "rounding of a few ulp makes it negative (or > 1) and the result is nan", bad[0] if bad else None, chain=chain)
     return sites
@@ -2183,3 +2230,490 @@ def r_count_after_expansion(ctx, f: FunctionInfo, rule="R-KIND", chain=None):
            f"`num_sys` is read at line {early[0].lineno}, before the scalar-dim branch (line {fix.lineno}) sets it to 2: for `dim` given as a single number it is still 1 there, "
            "so anything derived from it (subsystem indices taken modulo the count, ranges over the subsystems) is computed for ONE subsystem", early[0] if early else None, chain=chain)
     return 1
+
+
+# ---------------------------------------------------------------------------------------------
+def r_guard_not_preempted(ctx, f: FunctionInfo, rule="R-GUARD", chain=None):
+    """A raising guard `isclose(sum(p), 1)` (or `sum(p) != 1`) tests the CALLER's weights.  A statement that normalises `p` (p /= sum(p),
+    p = p / sum(p)) on the way to the guard makes the test vacuous: every vector of the right length is accepted.  A normalisation is only
+    legitimate in a block that has just re-bound `p` to values the function generated itself (p = np.random.rand(..); p /= p.sum())."""
+    par = _parents(f.node)
+    guards = []
+    for n in walk_no_nested(f.node):
+        if isinstance(n, ast.If) and any(isinstance(x, ast.Raise) for x in n.body):
+            for c in ast.walk(n.test):
+                if isinstance(c, ast.Call) and getattr(c.func, "attr", getattr(c.func, "id", "")) in ("isclose", "allclose") and c.args:
+                    s = c.args[0]
+                    if isinstance(s, ast.Call) and getattr(s.func, "attr", getattr(s.func, "id", "")) == "sum":
+                        who = s.args[0] if s.args else getattr(s.func, "value", None)
+                        if isinstance(who, ast.Name):
+                            guards.append((n, who.id))
+    n_sites = 0
+    for g, p in guards:
+        n_sites += 1
+        bad = None
+        for st in walk_no_nested(f.node):
+            if getattr(st, "lineno", 10**9) >= g.lineno:
+                continue
+            val = None
+            if isinstance(st, ast.AugAssign) and isinstance(st.op, ast.Div) and isinstance(st.target, ast.Name) and st.target.id == p:
+                val = st.value
+            elif isinstance(st, ast.Assign) and len(st.targets) == 1 and isinstance(st.targets[0], ast.Name) and st.targets[0].id == p and isinstance(st.value, ast.BinOp) \
+                    and isinstance(st.value.op, ast.Div) and any(isinstance(x, ast.Name) and x.id == p for x in ast.walk(st.value.left)):
+                val = st.value.right
+            if val is None:
+                continue
+            if not any(isinstance(x, ast.Call) and getattr(x.func, "attr", getattr(x.func, "id", "")) in ("sum", "norm") for x in ast.walk(val)):
+                continue
+            # the block holding the normalisation: was `p` re-bound there, earlier, to a value that does not come from `p`?
+            blk = par.get(id(st))
+            body = None
+            for fld in ("body", "orelse", "finalbody"):
+                if isinstance(getattr(blk, fld, None), list) and any(x is st for x in getattr(blk, fld)):
+                    body = getattr(blk, fld)
+            own = False
+            for x in (body or []):
+                if x is st:
+                    break
+                if isinstance(x, ast.Assign) and any(isinstance(t, ast.Name) and t.id == p for t in x.targets) and isinstance(blk, ast.If) \
+                        and not any(isinstance(y, ast.Name) and y.id == p and isinstance(y.ctx, ast.Load) for y in ast.walk(x.value) if not _is_size_use(x.value, y)):
+                    own = True
+            if not own:
+                bad = st
+                break
+        ctx.ob(rule, f, f"the sum-to-one guard tests the caller's `{p}` (no normalisation ahead of it)", bad is None,
+               "only freshly generated weights are normalised" if bad is None else
+               f"`{unparse(bad)[:60]}` (line {bad.lineno}) rescales the caller's `{p}` before the guard at line {g.lineno}: after it the sum IS 1, so vectors with the wrong "
+               "total (and all-negative ones, whose signs flip) are accepted instead of raising", bad, chain=chain)
+    return n_sites
+
+
+def _is_size_use(expr, name_node):
+    """`name_node` occurs in `expr` only as an exponent / size argument (np.random.rand(4 ** q)): the new value does not carry the old one"""
+    par = {}
+    for p in ast.walk(expr):
+        for ch in ast.iter_child_nodes(p):
+            par[id(ch)] = p
+    p = par.get(id(name_node))
+    while p is not None:
+        if isinstance(p, ast.Call) and getattr(p.func, "attr", getattr(p.func, "id", "")) in ("rand", "random", "random_sample", "uniform", "dirichlet", "ones", "full", "zeros"):
+            return True
+        p = par.get(id(p))
+    return False
+
+
+# ---------------------------------------------------------------------------------------------
+def r_stale_length(ctx, f: FunctionInfo, rule="R-ENUM", chain=None):
+    """L = len(V) taken BEFORE V is zero-padded (V = np.pad(V, ..)) is the length of the unpadded vector.  A loop `for k in range(L)` after
+    the padding stops short of the padded tail: whatever the loop compares or accumulates never sees the other operand's extra entries."""
+    lens = {}
+    for n in walk_no_nested(f.node):
+        if isinstance(n, ast.Assign) and len(n.targets) == 1 and isinstance(n.targets[0], ast.Name) and isinstance(n.value, ast.Call) and getattr(n.value.func, "id", "") == "len" \
+                and n.value.args and isinstance(n.value.args[0], ast.Name):
+            lens[n.targets[0].id] = (n.value.args[0].id, n.lineno)
+    pads = {}
+    for n in walk_no_nested(f.node):
+        if isinstance(n, ast.Assign) and len(n.targets) == 1 and isinstance(n.targets[0], ast.Name) and isinstance(n.value, ast.Call) \
+                and getattr(n.value.func, "attr", "") in ("pad", "append", "concatenate", "hstack") and any(isinstance(x, ast.Name) and x.id == n.targets[0].id for x in ast.walk(n.value)):
+            pads.setdefault(n.targets[0].id, []).append(n.lineno)
+    if not pads or not lens:
+        return 0
+    bad, sites = None, 0
+    for n in walk_no_nested(f.node):
+        if not isinstance(n, ast.For):
+            continue
+        it = n.iter
+        if isinstance(it, ast.Call) and getattr(it.func, "id", "") == "range" and len(it.args) == 1 and isinstance(it.args[0], ast.Name) and it.args[0].id in lens:
+            v, l0 = lens[it.args[0].id]
+            indexed = {x.value.id for x in ast.walk(n) if isinstance(x, ast.Subscript) and isinstance(x.value, ast.Name)}
+            if v in pads and any(l0 < pl < n.lineno for pl in pads[v]) and (indexed & set(pads)):
+                sites += 1
+                bad = bad or (n, it.args[0].id, v)
+        elif any(isinstance(x, ast.Name) and x.id in pads for x in ast.walk(it)) and n.lineno > min(min(v) for v in pads.values()):
+            sites += 1
+    if sites:
+        ctx.ob(rule, f, "loops after the zero-padding run over the padded length", bad is None,
+               f"{sites} loop(s) take their length when they start" if bad is None else
+               f"`for .. in range({bad[1]})` (line {bad[0].lineno}): `{bad[1]} = len({bad[2]})` was taken before `{bad[2]}` was padded, so when `{bad[2]}` is the shorter operand the "
+               "entries of the other one beyond that length are never visited", bad[0] if bad else None, chain=chain)
+    return sites
+
+
+# ---------------------------------------------------------------------------------------------
+# exits confirmed by reading to be independent of the option (one line of reason each)
+_OPTION_FREE_EXITS = {
+    ("symmetric_projection", "partial"): "p = 1: the projector is the identity, which is also its own isometry form",
+    ("antisymmetric_projection", "partial"): "p = 1: the projector is the identity, which is also its own isometry form",
+}
+
+
+def r_option_before_return(ctx, f: FunctionInfo, rule="R-THREAD", chain=None):
+    """A boolean option (default False/True) that selects the FORM of the result (return_dm, is_sparse, partial, ...) has to be consulted on every
+    path that returns a result.  A `return` placed textually before the first read of the option -- and not inside a branch on it --
+    cannot depend on it: that exit silently ignores the option."""
+    opts = [p.name for p in f.params if isinstance(getattr(p, "default", None), ast.Constant) and isinstance(p.default.value, bool)]
+    n_sites = 0
+    for p in opts:
+        free = "np.eye(dim)" if (f.name, p) in _OPTION_FREE_EXITS else None
+        reads = [x for x in walk_no_nested(f.node) if isinstance(x, ast.Name) and x.id == p and isinstance(x.ctx, ast.Load)]
+        if not reads:
+            continue
+        first = min(x.lineno for x in reads)
+        early = [r for r in walk_no_nested(f.node) if isinstance(r, ast.Return) and r.value is not None and r.lineno < first
+                 and not isinstance(r.value, ast.Constant) and unparse(r.value) != free]  # a constant verdict (False for a non-square matrix) has no form to select
+        n_sites += 1
+        ctx.ob(rule, f, f"option `{p}` is consulted on every returning path", not early,
+               f"first read at line {first}, no earlier return" if not early else
+               f"`{unparse(early[0])[:60]}` (line {early[0].lineno}) returns before `{p}` is read for the first time (line {first}): on that path the caller's `{p}` is ignored and "
+               "the result has the default form", early[0] if early else None, chain=chain)
+    return n_sites
+
+
+# ---------------------------------------------------------------------------------------------
+def r_family_index_ranges(ctx, f: FunctionInfo, rule="R-ENUM", chain=None):
+    """A keyed family of optimisation variables (`sigma[a, x] = Variable(..)` in nested loops, held in a dict / defaultdict) has to be
+    declared over the same index ranges it is later read over.  With a defaultdict a missing key is not an error: it silently creates a
+    fresh (scalar) variable, and the constraints that mention it constrain the wrong object."""
+    par = _parents(f.node)
+
+    def loop_range(node, name):
+        p = par.get(id(node))
+        while p is not None:
+            if isinstance(p, (ast.For, ast.comprehension)) and isinstance(p.target, ast.Name) and p.target.id == name:
+                it = p.iter
+                if isinstance(it, ast.Call) and getattr(it.func, "id", "") == "range" and len(it.args) == 1:
+                    return unparse(it.args[0])
+                return None
+            if isinstance(p, (ast.ListComp, ast.GeneratorExp, ast.SetComp, ast.DictComp)):
+                for g in p.generators:
+                    if isinstance(g.target, ast.Name) and g.target.id == name and isinstance(g.iter, ast.Call) and getattr(g.iter.func, "id", "") == "range" and len(g.iter.args) == 1:
+                        return unparse(g.iter.args[0])
+            p = par.get(id(p))
+        return None
+
+    fams = {n.targets[0].id for n in walk_no_nested(f.node) if isinstance(n, ast.Assign) and len(n.targets) == 1 and isinstance(n.targets[0], ast.Name)
+            and isinstance(n.value, (ast.Call, ast.Dict)) and (isinstance(n.value, ast.Dict) or unparse(n.value.func).split(".")[-1] in ("defaultdict", "dict"))}
+    n_sites = 0
+    for fam in sorted(fams):
+        stores, loads = [], []
+        for x in walk_no_nested(f.node):
+            if isinstance(x, ast.Subscript) and isinstance(x.value, ast.Name) and x.value.id == fam and isinstance(x.slice, ast.Tuple) and all(isinstance(e, ast.Name) for e in x.slice.elts):
+                rg = tuple(loop_range(x, e.id) for e in x.slice.elts)
+                (stores if isinstance(x.ctx, ast.Store) else loads).append((x, rg))
+        if not stores or not loads:
+            continue
+        decl = {rg for _, rg in stores if all(rg)}
+        if len(decl) != 1:
+            continue
+        d = next(iter(decl))
+        n_sites += 1
+        bad = next(((x, rg) for x, rg in loads if all(rg) and len(rg) == len(d) and rg != d), None)
+        ctx.ob(rule, f, f"variable family `{fam}` is declared over the index ranges it is read over", bad is None,
+               f"declared and read over ({', '.join(d)})" if bad is None else
+               f"`{unparse(bad[0])}` (line {bad[0].lineno}) is read for indices in ({', '.join(bad[1])}) but `{fam}` is only declared for ({', '.join(d)}): the missing keys are "
+               "either a KeyError or -- with a defaultdict -- silently fresh scalar variables, so the constraints bind the wrong objects", bad[0] if bad else None, chain=chain)
+    return n_sites
+
+
+# ---------------------------------------------------------------------------------------------
+def r_default_dim_root(ctx, f: FunctionInfo, rule="R-KIND", chain=None):
+    """`dim` omitted means two subsystems of equal size: each is the square root of the number of ROWS (len(X), X.shape[0]) of the operand.
+    The square root of the number of ENTRIES (X.size, prod(X.shape), shape[0] * shape[1]) is the full side length -- the operand would then be
+    treated as one N-dimensional subsystem next to a trivial one."""
+    n_sites = 0
+    for n in walk_no_nested(f.node):
+        if not (isinstance(n, ast.If) and unparse(n.test).replace(" ", "") in ("dimisNone", "Noneisdim")):
+            continue
+        for st in ast.walk(ast.Module(body=n.body, type_ignores=[])):
+            if not (isinstance(st, ast.Assign) and len(st.targets) == 1 and isinstance(st.targets[0], ast.Name) and st.targets[0].id == "dim"):
+                continue
+            for c in ast.walk(st.value):
+                if isinstance(c, ast.Call) and getattr(c.func, "attr", getattr(c.func, "id", "")) == "sqrt" and c.args:
+                    a = c.args[0]
+                    txt = unparse(a).replace(" ", "")
+                    entries = (isinstance(a, ast.Attribute) and a.attr == "size") or "prod(" in txt or ".size" in txt or \
+                        (isinstance(a, ast.BinOp) and isinstance(a.op, ast.Mult) and "shape" in txt)
+                    rows = txt.startswith("len(") or (isinstance(a, ast.Subscript) and isinstance(a.value, ast.Attribute) and a.value.attr == "shape") or txt.startswith(("max(", "min("))
+                    if not (entries or rows):
+                        continue
+                    n_sites += 1
+                    ctx.ob(rule, f, "omitted dim: each of the two subsystems is the square root of the number of rows", not entries,
+                           f"sqrt({txt[:40]})" if not entries else
+                           f"`{unparse(st)[:70]}` (line {st.lineno}) takes the root of the number of ENTRIES: an N x N operand gets dim = N, i.e. [N, 1], instead of [sqrt N, sqrt N], "
+                           "so the call with dim omitted returns the whole operand (or its full trace)", st, chain=chain)
+    return n_sites
+
+
+# ---------------------------------------------------------------------------------------------
+def r_swap_dims_current(ctx, f: FunctionInfo, rule="R-ORDER", chain=None):
+    """swap(X, sys, dim) / permute_systems(X, perm, dim) must be told the dimensions X has NOW, i.e. before the exchange.  When the names in
+    the `dim` argument were exchanged or reversed (dim = dim[::-1]; a, b = b, a) by an earlier statement of the same block -- with X
+    untouched in between -- the call describes the layout X will have afterwards: a 3 x 2 operand is read as 2 x 3 and scrambled."""
+    model = ctx.model
+    par = _parents(f.node)
+    n_sites = 0
+    for c in walk_no_nested(f.node):
+        if not isinstance(c, ast.Call):
+            continue
+        k = model.resolve_call(f, c).key or ""
+        if not k.endswith(("swap.swap", "permute_systems.permute_systems")):
+            continue
+        cal = model.resolve_call(f, c)
+        try:
+            b = model.bind(c, cal.func)
+        except Exception:  # noqa: BLE001
+            continue
+        d = b.get("dim")
+        x = b.get("rho") if "rho" in b else b.get("input_mat")
+        if not isinstance(d, ast.AST) or not isinstance(x, ast.AST):
+            continue
+        dnames = {y.id for y in ast.walk(d) if isinstance(y, ast.Name)}
+        xnames = {y.id for y in ast.walk(x) if isinstance(y, ast.Name)}
+        if not dnames:
+            continue
+        # the statement holding the call, and its block
+        st = c
+        while st is not None and not isinstance(st, ast.stmt):
+            st = par.get(id(st))
+        blk = par.get(id(st)) if st is not None else None
+        body = None
+        for fld in ("body", "orelse", "finalbody"):
+            if isinstance(getattr(blk, fld, None), list) and any(y is st for y in getattr(blk, fld)):
+                body = getattr(blk, fld)
+        if body is None:
+            continue
+        n_sites += 1
+        bad = None
+        for prev in body:
+            if prev is st:
+                break
+            if not isinstance(prev, ast.Assign):
+                continue
+            tg = prev.targets[0]
+            exch = False
+            if isinstance(tg, ast.Tuple) and isinstance(prev.value, ast.Tuple) and len(tg.elts) == len(prev.value.elts) == 2 and all(isinstance(e, ast.Name) for e in tg.elts + prev.value.elts):
+                exch = [e.id for e in tg.elts] == [e.id for e in prev.value.elts][::-1] and {e.id for e in tg.elts} <= dnames
+            elif isinstance(tg, ast.Name) and tg.id in dnames:
+                v = unparse(prev.value).replace(" ", "")
+                exch = v in (f"{tg.id}[::-1]", f"[{tg.id}[1],{tg.id}[0]]", f"list(reversed({tg.id}))", f"np.flip({tg.id})", f"{tg.id}[[1,0]]")
+            if exch:
+                bad = prev
+            elif bad is not None and any(isinstance(t, ast.Name) and t.id in xnames for t in ast.walk(tg)):
+                bad = None  # the operand was re-bound after the exchange: the new dims may describe it
+        ctx.ob(rule, f, f"`{unparse(c.func)}` is given the operand's current dimensions", bad is None,
+               "no exchange of the dimensions ahead of the call" if bad is None else
+               f"`{unparse(bad)[:50]}` (line {bad.lineno}) exchanges the dimensions BEFORE `{unparse(c)[:60]}` (line {c.lineno}): the operand still has the old layout, so it is "
+               "re-factorised with the wrong local dimensions whenever they differ (a 3 x 2 operator read as 2 x 3)", c, chain=chain)
+    return n_sites
+
+
+# ---------------------------------------------------------------------------------------------
+def r_unpack_alignment(ctx, f: FunctionInfo, rule="R-ENUM", chain=None):
+    """a, b, c, d = (g(v) for v in (a, b, c, d)) re-binds each name to its own converted value: targets and sources must be in the same order.
+    The same names in a different order silently exchange two arguments."""
+    n_sites = 0
+    for n in walk_no_nested(f.node):
+        if not (isinstance(n, ast.Assign) and len(n.targets) == 1 and isinstance(n.targets[0], ast.Tuple) and all(isinstance(e, ast.Name) for e in n.targets[0].elts)):
+            continue
+        tg = [e.id for e in n.targets[0].elts]
+        src = None
+        v = n.value
+        if isinstance(v, (ast.GeneratorExp, ast.ListComp)) and len(v.generators) == 1 and not v.generators[0].ifs and isinstance(v.generators[0].iter, (ast.Tuple, ast.List)) \
+                and all(isinstance(e, ast.Name) for e in v.generators[0].iter.elts):
+            src = [e.id for e in v.generators[0].iter.elts]
+        elif isinstance(v, (ast.Tuple, ast.List)) and len(v.elts) == len(tg) and not all(isinstance(e, ast.Name) for e in v.elts):
+            per = [sorted({y.id for y in ast.walk(e) if isinstance(y, ast.Name) and y.id in tg}) for e in v.elts]
+            if all(len(p) == 1 for p in per):
+                src = [p[0] for p in per]
+        if src is None or sorted(src) != sorted(tg) or len(set(tg)) != len(tg) or len(tg) < 2:
+            continue
+        n_sites += 1
+        ok = src == tg
+        ctx.ob(rule, f, f"re-binding of ({', '.join(sorted(tg))}) keeps every name on its own value", ok,
+               "targets and sources in the same order" if ok else
+               f"`{unparse(n)[:90]}` (line {n.lineno}): targets ({', '.join(tg)}) against sources ({', '.join(src)}) -- "
+               f"{', '.join(a + '<-' + b for a, b in zip(tg, src) if a != b)}: two arguments are silently exchanged", n, chain=chain)
+    return n_sites
+
+
+# ---------------------------------------------------------------------------------------------
+def r_all_equality(ctx, f: FunctionInfo, rule="R-PRED", chain=None):
+    """`if np.any(T[0] == T[1])` between two rows of one table is true as soon as ONE entry agrees; a branch that then treats the rows as
+    interchangeable needs np.all / np.array_equal."""
+    def strip(e):
+        while True:
+            if isinstance(e, ast.Call) and getattr(e.func, "attr", getattr(e.func, "id", "")) in ("asarray", "array", "list", "tuple") and e.args:
+                e = e.args[0]
+            elif isinstance(e, ast.Subscript) and isinstance(e.slice, ast.Slice) and e.slice.lower is None and e.slice.upper is None and e.slice.step is None:
+                e = e.value
+            else:
+                return e
+    n_sites = 0
+    for n in walk_no_nested(f.node):
+        if not isinstance(n, (ast.If, ast.IfExp)):
+            continue
+        for c in ast.walk(n.test):
+            if isinstance(c, ast.Call) and getattr(c.func, "attr", getattr(c.func, "id", "")) in ("any", "all") and c.args and isinstance(c.args[0], ast.Compare) \
+                    and len(c.args[0].ops) == 1 and isinstance(c.args[0].ops[0], ast.Eq):
+                l, r = strip(c.args[0].left), strip(c.args[0].comparators[0])
+                if isinstance(l, ast.Subscript) and isinstance(r, ast.Subscript) and unparse(l.value) == unparse(r.value) and isinstance(l.slice, ast.Constant) \
+                        and isinstance(r.slice, ast.Constant) and l.slice.value != r.slice.value:
+                    n_sites += 1
+                    ok = getattr(c.func, "attr", getattr(c.func, "id", "")) == "all"
+                    ctx.ob(rule, f, f"rows `{unparse(l)}` and `{unparse(r)}` are treated as equal only when ALL entries agree", ok, "np.all" if ok else
+                           f"`{unparse(c)[:70]}` (line {c.lineno}) holds as soon as one subsystem has equal row and column dimension: a table that mixes square and "
+                           "rectangular subsystems takes the equal-rows shortcut and uses the row data for the columns", c, chain=chain)
+    return n_sites
+
+
+# ---------------------------------------------------------------------------------------------
+def r_squeeze_axis(ctx, f: FunctionInfo, rule="R-SHAPE", chain=None):
+    """np.squeeze(x) / x.squeeze() without an axis removes EVERY unit axis, not only the one that was just cut: for a single Kraus operator,
+    a one-dimensional system or a single vector the result loses a second axis and comes back 1-D (or 0-D)."""
+    bad = [c for c in walk_no_nested(f.node) if isinstance(c, ast.Call) and getattr(c.func, "attr", getattr(c.func, "id", "")) == "squeeze"
+           and not any(kw.arg == "axis" for kw in c.keywords) and len(c.args) < (2 if isinstance(c.func, ast.Attribute) and unparse(c.func.value) in ("np", "numpy") else 1)]
+    if bad:
+        ctx.ob(rule, f, "squeeze names the axis it removes", False,
+               f"`{unparse(bad[0])[:60]}` (line {bad[0].lineno}) drops all unit axes: whenever another extent is 1 (one Kraus operator, a one-dimensional space, a single state) the "
+               "operator comes back with the wrong number of dimensions", bad[0], chain=chain)
+    return len(bad)
+
+
+# ---------------------------------------------------------------------------------------------
+def r_overwrite_operand(ctx, f: FunctionInfo, rule="R-EFFECT", chain=None):
+    """scipy.linalg routines called with overwrite_a / overwrite_b / overwrite_x = True let LAPACK work in the operand's own memory whenever
+    its layout allows it (Fortran-contiguous: X.T views, np.asfortranarray, results of other LAPACK calls).  That is only sound for a
+    temporary that is never read again; for a parameter (or an alias of one) it corrupts the caller's array, and for a local that is read
+    afterwards it corrupts the rest of the computation -- silently, and only for some memory layouts."""
+    bad = None
+    for c in walk_no_nested(f.node):
+        if not isinstance(c, ast.Call):
+            continue
+        ow = [kw for kw in c.keywords if kw.arg and kw.arg.startswith("overwrite_") and not (isinstance(kw.value, ast.Constant) and kw.value.value is False)]
+        if not ow or not c.args:
+            continue
+        a = c.args[0]
+        if isinstance(a, ast.Name):
+            later = any(isinstance(x, ast.Name) and x.id == a.id and isinstance(x.ctx, ast.Load) and (x.lineno, x.col_offset) > (c.end_lineno, c.end_col_offset) for x in walk_no_nested(f.node))
+            stores = [x for x in walk_no_nested(f.node) if isinstance(x, ast.Assign) and any(isinstance(t, ast.Name) and t.id == a.id for t in x.targets) and x.lineno < c.lineno]
+            fresh = bool(stores) and all(isinstance(x.value, ast.Call) and getattr(x.value.func, "attr", "") in ("copy", "array", "asfortranarray") for x in stores)
+            if f.param(a.id) is not None and not fresh or later:
+                bad = bad or (c, ow[0], a.id, "is read again afterwards" if later else "is the caller's array")
+    if bad is not None:
+        c, kw, nm, why = bad
+        ctx.ob(rule, f, "no LAPACK routine is allowed to overwrite an operand that is still needed", False,
+               f"`{unparse(c)[:70]}` (line {c.lineno}): `{kw.arg}=True` lets the routine destroy `{nm}`, which {why}; it happens only for Fortran-ordered memory (a transposed view, "
+               "np.asfortranarray, the output of another LAPACK call), so C-ordered test inputs never see it", c, chain=chain)
+    return 1 if bad else 0
+
+
+# ---------------------------------------------------------------------------------------------
+# same-named parameters that mean different things in caller and callee (confirmed by reading)
+_SAME_NAME_OTHER_MEANING = {
+    ("is_stochastic", "is_nonnegative", "mat_type"): "is_stochastic's mat_type is left / right / doubly; is_nonnegative's is positive / nonnegative",
+}
+
+
+def r_forward_same_named(ctx, f: FunctionInfo, rule="R-THREAD", chain=None, skip=("tol", "rtol", "atol", "self")):
+    """Across the library a parameter keeps its name when a function delegates (probs, dim, solver, level, primal_dual, ...): on the
+    unchanged tree EVERY call to a library function that has a formal named like one of the caller's own parameters binds it.  A call that
+    leaves such a formal at its default silently drops the caller's value (a delegation that forgets the prior solves the uniform problem).
+    Tolerances have their own rule (R-TOL) with its confirmed exceptions."""
+    model = ctx.model
+    fp = {p.name for p in f.params} - set(skip)
+    if not fp:
+        return 0
+    n_sites = 0
+    for c in walk_no_nested(f.node):
+        if not isinstance(c, ast.Call) or any(kw.arg is None for kw in c.keywords) or any(isinstance(a, ast.Starred) for a in c.args):
+            continue
+        g = getattr(model.resolve_call(f, c), "func", None)
+        if g is None or g is f:
+            continue
+        try:
+            b = model.bind(c, g)
+        except Exception:  # noqa: BLE001
+            continue
+        for p in g.params:
+            if p.name in fp and p.kind in ("pos", "kwonly") and (f.name, g.name, p.name) not in _SAME_NAME_OTHER_MEANING:
+                n_sites += 1
+                ok = isinstance(b.get(p.name), ast.AST)
+                ctx.ob(rule, f, f"`{p.name}` is handed on to {g.name}", ok, "bound" if ok else
+                       f"`{unparse(c)[:80]}` (line {c.lineno}) leaves {g.name}'s `{p.name}` at its default although {f.name} has its own `{p.name}`: on this path the caller's value is "
+                       "dropped (for a prior: the uniform problem is solved instead)", c, chain=chain)
+    return n_sites
+
+
+# ---------------------------------------------------------------------------------------------
+def r_einsum_kron(ctx, f: FunctionInfo, rule="R-LAYOUT", chain=None):
+    """np.einsum("ab..,cd..->acbd..", A, B).reshape(..) is a Kronecker product axis by axis: the output lists, for every axis k, the k-th index of
+    one operand next to the k-th index of the other, and the reshape merges each pair.  The order inside the pairs decides which operand is
+    the slow (major) factor: it has to be the same for EVERY axis, otherwise one axis is the product B (x) A while the others are A (x) B."""
+    n_sites = 0
+    for c in walk_no_nested(f.node):
+        if not (isinstance(c, ast.Call) and getattr(c.func, "attr", "") == "einsum" and len(c.args) == 3 and isinstance(c.args[0], ast.Constant) and isinstance(c.args[0].value, str)):
+            continue
+        spec = c.args[0].value.replace(" ", "")
+        if "->" not in spec or spec.count(",") != 1:
+            continue
+        ins, out = spec.split("->")
+        i1, i2 = ins.split(",")
+        if len(i1) != len(i2) or len(out) != 2 * len(i1) or set(out) != set(i1 + i2) or len(set(i1 + i2)) != 2 * len(i1):
+            continue
+        pairs = [out[2 * k:2 * k + 2] for k in range(len(i1))]
+        orient, bad = [], None
+        for pr in pairs:
+            if pr[0] in i1 and pr[1] in i2 and i1.index(pr[0]) == i2.index(pr[1]):
+                orient.append(1)
+            elif pr[0] in i2 and pr[1] in i1 and i2.index(pr[0]) == i1.index(pr[1]):
+                orient.append(2)
+            else:
+                orient.append(0)
+        n_sites += 1
+        if 0 in orient:
+            ok, why = False, f"output `{out}` does not pair the k-th index of one operand with the k-th index of the other (pairs {pairs})"
+        elif len(set(orient)) > 1:
+            k = next(i for i, o in enumerate(orient) if o != orient[0])
+            ok, why = False, (f"`{spec}`: the pair `{pairs[k]}` lists the operands in the opposite order to `{pairs[0]}` -- after the reshape that axis is the Kronecker product with "
+                              "the factors exchanged, so its digits run in the reverse order to the other axes (and to anything built with tensor() / np.kron for the same repetitions)")
+        else:
+            ok, why = True, f"`{spec}`: every pair lists operand {orient[0]} first"
+        ctx.ob(rule, f, "einsum/reshape Kronecker product orders every index pair the same way", ok, why, c, chain=chain)
+    return n_sites
+
+
+# ---------------------------------------------------------------------------------------------
+def r_signed_difference(ctx, f: FunctionInfo, rule="R-DTYPE", chain=None):
+    """np.sign(x[i] - x[j]) (or a `< 0` test of such a difference) on entries of a caller-supplied integer array computed in the caller's dtype:
+    for an unsigned array (uint8 / uint64 / np.uintp index arrays) the difference wraps around instead of going negative, so every sign is
+    +1.  The array has to be converted to a signed type first (np.asarray(x, dtype=int), astype(int), int(..))."""
+    par = _parents(f.node)
+    params = {p.name for p in f.params}
+    untyped = set()
+    for n in walk_no_nested(f.node):
+        if isinstance(n, ast.Assign) and len(n.targets) == 1 and isinstance(n.targets[0], ast.Name) and isinstance(n.value, ast.Call) \
+                and unparse(n.value.func) in ("np.asarray", "np.array", "numpy.asarray", "numpy.array", "np.asanyarray") and n.value.args \
+                and isinstance(n.value.args[0], ast.Name) and n.value.args[0].id in params and len(n.value.args) == 1 and not any(kw.arg == "dtype" for kw in n.value.keywords):
+            untyped.add(n.targets[0].id)
+    if not untyped:
+        return 0
+    bad = None
+    for n in walk_no_nested(f.node):
+        if isinstance(n, ast.BinOp) and isinstance(n.op, ast.Sub):
+            ops = [n.left, n.right]
+            if all(isinstance(o, ast.Subscript) and isinstance(o.value, ast.Name) and o.value.id in untyped for o in ops):
+                p = par.get(id(n))
+                signed_use = False
+                while p is not None and not isinstance(p, ast.stmt):
+                    if isinstance(p, ast.Call) and getattr(p.func, "attr", "") in ("sign", "signbit"):
+                        signed_use = True
+                    if isinstance(p, ast.Compare) and any(isinstance(c_, ast.Constant) and c_.value == 0 for c_ in p.comparators):
+                        signed_use = True
+                    p = par.get(id(p))
+                if signed_use:
+                    bad = bad or n
+    if bad is not None:
+        ctx.ob(rule, f, "signs of differences of array entries are taken in a signed type", False,
+               f"`{unparse(bad)[:60]}` (line {bad.lineno}) subtracts entries of `{bad.left.value.id}` in the caller's dtype: an unsigned integer array wraps around instead of going negative, "
+               "so the sign of every difference is +1 (perm_sign(np.array([2, 1], dtype=np.uint8)) == +1)", bad, chain=chain)
+    return 1 if bad else 0
